@@ -62,18 +62,54 @@ type oddAllUnexported struct {
 	b string
 }
 
+// methods named Unpack that are not one of the Unpacker interfaces (wrong number of parameters or results): the type is
+// an ordinary struct / number for Unpack
+type oddUnpackNoResult struct {
+	A int `config:"a"`
+}
+
+func (o *oddUnpackNoResult) Unpack(int) {}
+
+type oddUnpackNoParam struct {
+	A int `config:"a"`
+}
+
+func (o *oddUnpackNoParam) Unpack() error { return nil }
+
+type oddUnpackTwoResults int
+
+func (o *oddUnpackTwoResults) Unpack(string) (int, error) { return 0, nil }
+
+type oddUnpackOther struct {
+	A int `config:"a"`
+}
+
+func (o oddUnpackOther) Unpack(a, b int) error { return nil }
+
+type oddUnpackHolder struct {
+	X oddUnpackNoResult         `config:"x"`
+	Y *oddUnpackNoParam         `config:"y"`
+	M map[string]oddUnpackOther `config:"m"`
+	N oddUnpackTwoResults       `config:"n"`
+	L []oddUnpackNoParam        `config:"l"`
+}
+
 var oddTargets = map[string]reflect.Type{
-	"blank":     reflect.TypeOf(oddBlank{}),
-	"under":     reflect.TypeOf(oddUnder{}),
-	"caseless":  reflect.TypeOf(oddCaseless{}),
-	"nested":    reflect.TypeOf(oddNested{}),
-	"embedded":  reflect.TypeOf(oddEmbedded{}),
-	"ifaces":    reflect.TypeOf(oddIfaces{}),
-	"funcs":     reflect.TypeOf(oddFuncs{}),
-	"allunexp":  reflect.TypeOf(oddAllUnexported{}),
-	"sliceodd":  reflect.TypeOf([]oddBlank{}),
-	"mapodd":    reflect.TypeOf(map[string]oddUnder{}),
-	"ptrnested": reflect.TypeOf(&oddNested{}),
+	"unpackNoResult": reflect.TypeOf(oddUnpackNoResult{}),
+	"unpackNoParam":  reflect.TypeOf(oddUnpackNoParam{}),
+	"unpackOther":    reflect.TypeOf(oddUnpackOther{}),
+	"unpackHolder":   reflect.TypeOf(oddUnpackHolder{}),
+	"blank":          reflect.TypeOf(oddBlank{}),
+	"under":          reflect.TypeOf(oddUnder{}),
+	"caseless":       reflect.TypeOf(oddCaseless{}),
+	"nested":         reflect.TypeOf(oddNested{}),
+	"embedded":       reflect.TypeOf(oddEmbedded{}),
+	"ifaces":         reflect.TypeOf(oddIfaces{}),
+	"funcs":          reflect.TypeOf(oddFuncs{}),
+	"allunexp":       reflect.TypeOf(oddAllUnexported{}),
+	"sliceodd":       reflect.TypeOf([]oddBlank{}),
+	"mapodd":         reflect.TypeOf(map[string]oddUnder{}),
+	"ptrnested":      reflect.TypeOf(&oddNested{}),
 }
 
 func oddTargetNames() []string {
